@@ -80,3 +80,71 @@ def gen_read_command(rng, s, cmd=None, drive=0):
     if cmd == 'global-help':
         return ['--help']
     return [cmd]
+
+
+# ------------------------------------------------------------------ multi-surface images
+
+def gen_image(rng, kind=None, img_id=1):
+    """An image file description:
+       {'ext': 'ssd'|'sdd'|'dsd'|'ddd'|'mmb', 'surfaces': [surface json...], 'slots': {slot: [status, surface_idx|None]}}
+    Surfaces of one image share img_id and differ in 'side'."""
+    kind = kind or rng.weighted([(5, 'single'), (3, 'interleaved'), (2, 'mmb')])
+    if kind == 'single':
+        d = gen_disc(rng, img_id=img_id)
+        return {'ext': d['ext'], 'surfaces': [d['surface']]}
+    if kind == 'interleaved':
+        for _ in range(50):
+            s0 = dd.gen_surface(rng, variant=rng.choice(['acorn', 'watford', 'acorn']), img_id=img_id, side=0)
+            ext = 'dsd' if s0.spt == 10 else 'ddd'
+            if not dd.geometry_is_identifiable(s0, ext):
+                continue
+            s1 = dd.gen_surface(rng, variant=rng.choice(['acorn', 'watford']), img_id=img_id, side=1, geom=(s0.tracks, s0.spt))
+            return {'ext': ext, 'surfaces': [s0.to_json(), s1.to_json()]}
+        raise RuntimeError('no interleaved image')
+    # mmb: 1..5 populated slots among the first few (file size grows with the highest slot)
+    nslots = rng.randint(1, 5)
+    hi = rng.weighted([(4, nslots - 1), (3, nslots + rng.randint(0, 3)), (1, nslots + rng.randint(4, 12))])
+    chosen = sorted(rng.sample(range(hi + 1), min(nslots, hi + 1)))
+    surfaces = []
+    slots = {}
+    for k, sl in enumerate(chosen):
+        s = dd.gen_surface(rng, variant=rng.choice(['acorn', 'acorn', 'watford']), img_id=img_id, side=k, geom=(80, 10))
+        surfaces.append(s.to_json())
+        slots[str(sl)] = [rng.choice([0x00, 0x0F]), k]
+    for sl in range(hi + 1):
+        if str(sl) not in slots and rng.chance(0.4):
+            slots[str(sl)] = [rng.choice([0xF0, 0xFF]), None]
+    return {'ext': 'mmb', 'surfaces': surfaces, 'slots': slots}
+
+
+def render_image(image):
+    surfs = [dd.Surface.from_json(s) for s in image['surfaces']]
+    ext = image['ext']
+    if ext in ('ssd', 'sdd'):
+        return dd.ssd_image([s.render() for s in surfs])
+    if ext in ('dsd', 'ddd'):
+        return dd.dsd_image(surfs[0].render(), surfs[1].render(), surfs[0].spt)
+    slots = {}
+    for sl, (status, idx) in image['slots'].items():
+        if idx is None:
+            slots[int(sl)] = (status, b'', None)
+        else:
+            s = surfs[idx]
+            slots[int(sl)] = (status, s.volumes[0].title, s.render())
+    return dd.mmb_image(slots)
+
+
+def image_drives(image, policy='physical', first_free=0):
+    """Drive numbers (relative, assuming an empty configuration) of each surface index.
+    Returns list of (drive, surface_idx or None for unformatted)."""
+    ext = image['ext']
+    if ext in ('ssd', 'sdd'):
+        return [(0, 0)]
+    if ext in ('dsd', 'ddd'):
+        return [(0, 0), (2, 1)] if policy == 'physical' else [(0, 0), (1, 1)]
+    out = []
+    for sl in range(511):
+        ent = image['slots'].get(str(sl))
+        d = sl * 2 if policy == 'physical' else sl
+        out.append((d, ent[1] if ent else None))
+    return out
